@@ -136,6 +136,7 @@ func vfCheckUid(r *vfev.Report, u uint64) {
 func TestVerifC20Uid(t *testing.T) {
 	r := vfev.New("C20", "uid")
 	defer r.Finish()
+	defer r.RecoverPanic()
 	shard, shards := vfev.Shard()
 	for lane := 0; lane < 4; lane++ {
 		for _, bg := range []uint64{0, ^uint64(0), 0x0123456789abcdef} {
@@ -155,6 +156,7 @@ func TestVerifC20Uid(t *testing.T) {
 func TestVerifC20UidCorrupt(t *testing.T) {
 	r := vfev.New("C20", "uidcorrupt")
 	defer r.Finish()
+	defer r.RecoverPanic()
 	shard, shards := vfev.Shard()
 	bases := []uint64{1, 0x0123456789abcdef, ^uint64(0)}
 	check := func(s string) {
@@ -225,6 +227,7 @@ func TestVerifC20UidCorrupt(t *testing.T) {
 func TestVerifC20P2P(t *testing.T) {
 	r := vfev.New("C20", "p2p")
 	defer r.Finish()
+	defer r.RecoverPanic()
 	var corner []uint64
 	for _, v := range []uint64{1, 2, 3, 0xFF, 0x100, 0xFFFF, 0x10000, 0x7FFFFFFF, 0x80000000, 0xFFFFFFFF, 0x100000000,
 		0x0123456789abcdef, 0xfedcba9876543210, 0x7FFFFFFFFFFFFFFF, 0x8000000000000000, ^uint64(0), ^uint64(0) - 1} {
